@@ -368,3 +368,59 @@ Proof.
   - apply maxl_le_all; [intro E; apply map_eq_nil in E; contradiction|]. intros v Hv. apply in_map_iff in Hv. destruct Hv as (t & <- & Ht). apply All; exact Ht.
 Qed.
 End SubDirect.
+
+(* ---------- direct evaluation on a box of points gives the point value (precise inputs: zero-width image) ---------- *)
+Section Point.
+Variables (fexp : R -> R) (fpow : R -> nat -> R).
+Hypothesis fexp_is : forall x, fexp x = exp x.
+Hypothesis fpow_is : forall x k, fpow x k = x ^ k.
+Definition point_v (v : ival_or_num RN) (x : R) : Prop := match v with IV _ p => p = (x, x) | NV _ c => c = x end.
+Lemma hull_point (f : R -> R -> R) x y : corner_hull f (x, x) (y, y) = (f x y, f x y).
+Proof. unfold corner_hull; cbn [fst snd]. f_equal; [apply min4_eq|apply max4_eq]; auto; lra. Qed.
+Lemma wfp_point x : wfp (x, x). Proof. unfold wfp; cbn; lra. Qed.
+Lemma bin_point op u w v x y : point_v u x -> point_v w y -> bin RN op u w = Ok v -> point_v v (opR op x y).
+Proof.
+  destruct u as [p|c], w as [q|d]; cbn [point_v bin]; intros Hu Hw; subst.
+  - destruct (iop RN op (x, x) (y, y)) as [r| |] eqn:E; cbn [rbind]; try discriminate. intros A; inversion A; subst.
+    destruct (iop_ok op _ _ r (wfp_point x) (wfp_point y) E) as [-> _]. cbn [point_v]. apply hull_point.
+  - destruct (iopn RN op (x, x) y) as [r| |] eqn:E; cbn [rbind]; try discriminate. intros A; inversion A; subst.
+    destruct (iopn_ok op _ r y (wfp_point x) E) as [-> _]. cbn [point_v]. apply hull_point.
+  - destruct (inop RN op x (y, y)) as [r| |] eqn:E; cbn [rbind]; try discriminate. intros A; inversion A; subst.
+    destruct (inop_ok op _ r x (wfp_point y) E) as [-> _]. cbn [point_v]. apply hull_point.
+  - intros A; inversion A; subst. cbn [point_v]. destruct op; reflexivity.
+Qed.
+Lemma nth_point_box (xs : list R) i : nth i (map (fun x => (x, x)) xs) (0, 0) = (nth i xs 0, nth i xs 0).
+Proof. exact (map_nth (fun x : R => (x, x)) xs 0 i). Qed.
+Theorem ieval_point e : forall xs v, pos_pows e -> ieval RN fexp fpow e (map (fun x => (x, x)) xs) = Ok v -> point_v v (eval RN fexp fpow e xs).
+Proof.
+  induction e as [i|c k|a IHa b IHb|a IHa b IHb|a IHa b IHb|a IHa b IHb|a IHa k|a IHa|a IHa]; intros xs v Hp E; cbn [ieval eval pos_pows] in *.
+  - inversion E; subst. cbn [point_v]. unfold nzero; cbn [nofZ RN T]. apply nth_point_box.
+  - inversion E; subst. reflexivity.
+  - destruct Hp as [Pa Pb]. destruct (ieval RN fexp fpow a _) as [u| |] eqn:Ea; cbn [rbind] in E; try discriminate.
+    destruct (ieval RN fexp fpow b _) as [w| |] eqn:Eb; cbn [rbind] in E; try discriminate. exact (bin_point Add u w v _ _ (IHa xs u Pa Ea) (IHb xs w Pb Eb) E).
+  - destruct Hp as [Pa Pb]. destruct (ieval RN fexp fpow a _) as [u| |] eqn:Ea; cbn [rbind] in E; try discriminate.
+    destruct (ieval RN fexp fpow b _) as [w| |] eqn:Eb; cbn [rbind] in E; try discriminate. exact (bin_point Sub u w v _ _ (IHa xs u Pa Ea) (IHb xs w Pb Eb) E).
+  - destruct Hp as [Pa Pb]. destruct (ieval RN fexp fpow a _) as [u| |] eqn:Ea; cbn [rbind] in E; try discriminate.
+    destruct (ieval RN fexp fpow b _) as [w| |] eqn:Eb; cbn [rbind] in E; try discriminate. exact (bin_point Mul u w v _ _ (IHa xs u Pa Ea) (IHb xs w Pb Eb) E).
+  - destruct Hp as [Pa Pb]. destruct (ieval RN fexp fpow a _) as [u| |] eqn:Ea; cbn [rbind] in E; try discriminate.
+    destruct (ieval RN fexp fpow b _) as [w| |] eqn:Eb; cbn [rbind] in E; try discriminate. exact (bin_point Div u w v _ _ (IHa xs u Pa Ea) (IHb xs w Pb Eb) E).
+  - destruct Hp as [Hk Pa]. destruct (ieval RN fexp fpow a _) as [u| |] eqn:Ea; cbn [rbind] in E; try discriminate.
+    pose proof (IHa xs u Pa Ea) as Hu. destruct u as [p|c]; cbn [point_v] in Hu; subst.
+    + destruct (ipow_nonneg RN fpow _ k) as [[r1 r2]| |] eqn:Ep; cbn [rbind] in E; try discriminate. inversion E; subst. cbn [point_v].
+      set (x := eval RN fexp fpow a xs) in *.
+      destruct (ipow_nonneg_attained fpow fpow_is x x k r1 r2 Hk ltac:(lra) Ep) as [(y1 & Hy1 & <-) (y2 & Hy2 & <-)].
+      assert (y1 = x) by lra. assert (y2 = x) by lra. subst. rewrite fpow_is. reflexivity.
+    + inversion E; subst. reflexivity.
+  - destruct (ieval RN fexp fpow a _) as [u| |] eqn:Ea; cbn [rbind] in E; try discriminate.
+    pose proof (IHa xs u Hp Ea) as Hu. destruct u as [p|c]; cbn [point_v] in Hu; subst.
+    + unfold iexp, mkI in E. cbn [fst snd nleb RN T] in E. destruct (Rleb _ _); cbn [rbind] in E; try discriminate. inversion E; subst. reflexivity.
+    + inversion E; subst. reflexivity.
+  - destruct (ieval RN fexp fpow a _) as [u| |] eqn:Ea; cbn [rbind] in E; try discriminate.
+    pose proof (IHa xs u Hp Ea) as Hu. destruct u as [p|c]; cbn [point_v] in Hu; subst.
+    + unfold isqrt, mkI in E. cbn [fst snd nleb RN T] in E. destruct (Rleb _ _); cbn [rbind] in E; try discriminate. inversion E; subst. reflexivity.
+    + inversion E; subst. reflexivity.
+Qed.
+Corollary direct_point e xs r : pos_pows e -> direct RN fexp fpow e (map (fun x => (x, x)) xs) = Ok r -> r = (eval RN fexp fpow e xs, eval RN fexp fpow e xs).
+Proof. intros Hp. unfold direct. destruct (ieval RN fexp fpow e _) as [v| |] eqn:E; cbn [rbind]; try discriminate. intros A; inversion A; subst.
+  pose proof (ieval_point e xs v Hp E) as H. destruct v as [p|c]; cbn [point_v as_pr] in *; subst; reflexivity. Qed.
+End Point.
